@@ -61,7 +61,12 @@ def gen(E, p):
     lens = [E.int(f"l{r}", minlen, p["L"]) for r in range(R)]
     S = E.concretize(z3.Sum(lens) if lens else z3.IntVal(0))
     dt = _dtype_p(p)
-    if dt == "bool":
+    if p.get("bvdata"):
+        data = [E.bv(f"d{q}", 64) for q in range(S)]      # genuine 64-bit integers: conversions and float arithmetic are IEEE-exact
+        if p["bvdata"] == "big":
+            for d in data:
+                E.assume(z3.And(d >= (1 << 62), d > 0))      # magnitudes whose sums leave the 64-bit range
+    elif dt == "bool":
         data = [E.bool(f"d{q}") for q in range(S)]
     elif dt in ("uint8", "int8"):
         data = [E.bv(f"d{q}", 8) for q in range(S)]
@@ -163,6 +168,11 @@ def sym(E, p, kf):
         after = common.cells(ra.ravel())
         conds += [specs.eqv(a, b) for a, b in zip(after, data)]
         return dict(goal=specs.conj(conds), got=got, case=case)
+    if p["op"] == "mean" and p.get("bvdata"):
+        # one row of 64-bit integers: numpy's own mean of that row (float64 accumulation), computed by the symbolic numpy on the plain array
+        exp1 = np.mean(common.typed(data, "int64"))
+        ok = got["k"] == "array" and got["shape"] == [1]
+        return dict(goal=specs.eqv(got["flat"][0], common.cells(exp1)[0]) if ok else False, got=got, case=case)
     exp = z3_fold(p["op"], lens, data, dt)
     if via in ("none", "npnone"):
         if got["k"] != "scalar":
@@ -280,6 +290,8 @@ def jobs(tier, seed):
     for via in ("method", "np", "none"):
         out.append(dict(base, op="mean", via=via, Rmin=1, R=3))
     out.append(dict(base, op="mean", via="method", keepdims=True, Rmin=1, R=3))
+    out.append(dict(op="mean", via="method", Rmin=1, R=1, L=2, bvdata=True))      # values up to the full 64-bit range
+    out.append(dict(op="mean", via="method", Rmin=1, R=1, L=3, bvdata="big"))
     for op in ("argmax", "argmin"):
         small = dict(R=2, L=3) if q else dict(R=3, L=3)
         for dt in ("int64", "uint8", "int8"):
